@@ -30,6 +30,8 @@ pub enum Op {
     RegErr(u16),
     /// silence: advance without inbound (may time links out)
     Silence(u16),
+    /// the link's measured rate becomes a whole number of bytes per second (the field the keepalive reads)
+    Rate(u16, u32),
 }
 
 #[derive(Debug, Clone, Hash, Serialize, Deserialize)]
@@ -54,6 +56,7 @@ pub fn strategy(max_ops: usize) -> impl Strategy<Value = Case> {
         1 => any::<u16>().prop_map(Op::Reg3),
         1 => any::<u16>().prop_map(Op::RegErr),
         1 => prop_oneof![100u16..6000, Just(16_000u16)].prop_map(Op::Silence),
+        3 => (any::<u16>(), prop_oneof![Just(500_080u32), Just(62_510), 1u32..4_000_000, 1u32..200_000]).prop_map(|(l, r)| Op::Rate(l, r)),
     ];
     (1u8..=4, any::<bool>(), 0u8..TIMEOUTS.len() as u8, vec(op, 1..max_ops)).prop_map(|(n_links, classic, timeout, ops)| Case { n_links, classic, timeout, ops })
 }
@@ -131,6 +134,11 @@ pub fn check(case: &Case, obs: &mut Obs) -> CheckResult {
                 }
                 p.extend_from_slice(&0x7000_0000u32.to_be_bytes());
                 sh.uplink_pkt(li, &p);
+            }
+            Op::Rate(l, bytes_per_s) => {
+                let li = idx(*l, n);
+                sh.st.conns[li].bitrate.current_bitrate_bps = *bytes_per_s as f64 * 8.0;
+                obs.class("rate-whole-bytes-per-second");
             }
             Op::Tick(j) => {
                 // 0..=500: the period plus jitter; 501..503: a tick that comes 1, 2 or 10 ms early (the timer's
